@@ -34,6 +34,8 @@ GEN = ["SdkJson", "XmlText"]
 
 JSONIZATION = "aas_core_codegen/python/lib/_generate_jsonization.py"
 XMLIZATION = "aas_core_codegen/python/lib/_generate_xmlization.py"
+#: ``iterparse`` reads 16 KiB at a time; ``Model/SdkXml.lean`` is stated for documents read in one chunk
+XML_ONE_CHUNK = 15000
 
 # =========================================================================== Gen extractor
 
@@ -294,6 +296,63 @@ def wire_json(w: str) -> Any:
         raise ValueError(t)
 
     return go()
+
+
+def elem_wire(text: str) -> Optional[Tuple[str, str]]:
+    """(tree wire, oracle table wire) of a well-formed XML document; None if it is not well-formed."""
+    import xml.etree.ElementTree as ET
+
+    try:
+        root = ET.fromstring(text)
+    except ET.ParseError:
+        return None
+    toks: List[str] = []
+    texts: List[str] = []
+
+    def opt(t: Optional[str]) -> str:
+        return "!" if t is None else enc_text(t)
+
+    def go(el: Any) -> None:
+        tag = el.tag
+        if not isinstance(tag, str):
+            raise ValueError("comment or processing instruction")
+        if tag.startswith("{"):
+            ns, _, local = tag[1:].partition("}")
+            nsw = enc_text(ns)
+        else:
+            nsw, local = "!", tag
+        toks.append(f"x{nsw}:{enc_text(local)}:{int(len(el.attrib) > 0)}:{opt(el.text)}:{opt(el.tail)}:{len(el)}")
+        if el.text is not None:
+            texts.append(el.text)
+        for ch in el:
+            go(ch)
+
+    try:
+        go(root)
+    except ValueError:
+        return None
+    table = []
+    for t in sorted(set(texts)):
+        try:
+            i = str(int(t))
+        except ValueError:
+            i = "!"
+        try:
+            f = enc_text(repr(float(t)))
+        except ValueError:
+            f = "!"
+        table.append(f"q{enc_text(t)}:{i}:{f}")
+    return ",".join(toks), ",".join([f"O{len(table)}"] + table)
+
+
+def xml_outcome(m: "Model", through: str, text: str) -> str:
+    kind, back = m.from_xml(through, text)
+    if kind == "ok":
+        try:
+            return "ok " + m.val_wire(back)
+        except ValueError as e:
+            return f"ok ?{e}"
+    return kind
 
 
 class Model:
@@ -1046,11 +1105,21 @@ def run_xml_text_stream(ctx: Ctx) -> None:
             reqs.append("xmlesc " + enc_text(t))
             wants.append(enc_text(buf.getvalue()))
             metas.append(("xmlesc", t, stream))
+        for cp in list(range(0, 0x3100)) + [0xFEFF, 0x1F600]:
+            if 0xD800 <= cp <= 0xDFFF:
+                continue
+            for t in (chr(cp), " " + chr(cp), chr(cp) + "a"):
+                reqs.append("blank " + enc_text(t))
+                wants.append("1" if len(t.strip()) == 0 else "0")
+                metas.append(("blank", t, "str-strip"))
+        reqs.append("blank !")
+        wants.append("1")
+        metas.append(("blank", "", "str-strip"))
         got = ctx.model(reqs)
         for (op, t, stream), w, g in zip(metas, wants, got):
             ctx.count((op, t), nontrivial=len(t) > 0, stream=stream)
             ctx.traces_validated += 1
-            ctx.hit(f"{op}:{w.split(' ')[0] if op == 'xmlcontent' else 'ok'}")
+            ctx.hit(f"{op}:{w.split(' ')[0] if op in ('xmlcontent', 'blank') else 'ok'}")
             if w != g:
                 ctx.disagree(stream, {"op": op, "text": t}, w, g)
     finally:
@@ -1188,6 +1257,14 @@ def check_model(ctx: Ctx, m: Model, budget: Budget, with_model: bool, enumerated
                 xml = m.sdk.to_xml_str(inst)
             except BaseException:  # noqa: B902  (reported by judge_roundtrip)
                 xml = None
+            nsw = enc_text(m.sdk.xmlization.NAMESPACE)
+            if xml is not None and with_model and len(xml) < XML_ONE_CHUNK:
+                ew = elem_wire(xml)
+                if ew is not None:
+                    ask(f"toxml {m.mm_wire} {nsw} {wire}", f"{stream_prefix}-toxml", base_input, ew[0])
+                    for thr in throughs:
+                        ask(f"fromxml {m.mm_wire} {nsw} {enc_text(thr)} {ew[1]} {ew[0]}", f"{stream_prefix}-fromxml-valid",
+                            dict(base_input, through=thr), xml_outcome(m, thr, xml))
             if xml is not None:
                 texts: List[Tuple[str, str]] = []
                 if big:
@@ -1202,8 +1279,14 @@ def check_model(ctx: Ctx, m: Model, budget: Budget, with_model: bool, enumerated
                     ctx.count((m.label, through, mtext), stream=f"{stream_prefix}-xml-mutants")
                     kind0 = m.from_xml(through, mtext)[0]
                     ctx.hit(f"xml-mutant:{kind0.split(':')[0]}")
+                    xinp = {"mm": m.source, "through": through, "xml": mtext, "kind": "xml-doc", "label": label}
                     for sig, what in judge_xml_doc(m, through, mtext):
-                        ctx.fail({"mm": m.source, "through": through, "xml": mtext, "kind": "xml-doc", "label": label}, what, sig)
+                        ctx.fail(xinp, what, sig)
+                    if with_model and len(mtext) < XML_ONE_CHUNK:
+                        ew = elem_wire(mtext)
+                        if ew is not None:
+                            ask(f"fromxml {m.mm_wire} {nsw} {enc_text(through)} {ew[1]} {ew[0]}", f"{stream_prefix}-fromxml-mutants",
+                                xinp, xml_outcome(m, through, mtext))
     if with_model and reqs:
         answers = ctx.model(reqs)
         for (stream, inp, impl, fn), ans in zip(wants, answers):
